@@ -5,7 +5,7 @@ from . import astq, dtab, common
 
 COMPILER_FUNCS = ("compiler<|generic_compiler::accumulate|fast_perfect_hash<|checked_perfect_hash<|vptr_vector<|vptr_map<|"
                   "static_list<|class_declaration_aux<|definition_info::~|>::method|>::~method|add_function<|decode_dispatch_data<")
-CFG_FUNCS = "assign_lattice_slots|build_dispatch_tables|augment_classes|augment_methods|resolve_static_type_ids|hash_initialize|publish_vptrs|hash_type_id|install_gv|static_list<|add_function|class_declaration_aux|definition_info::~|>::~method"
+CFG_FUNCS = "calculate_covariant_classes|assign_lattice_slots|build_dispatch_tables|augment_classes|augment_methods|resolve_static_type_ids|hash_initialize|publish_vptrs|hash_type_id|install_gv|static_list<|add_function|class_declaration_aux|definition_info::~|>::~method"
 
 
 def pol_of(f):
@@ -958,61 +958,29 @@ def _list_cases(f, decide_text, cases):
 
 
 def list_rules(run, r_link, r_reset, r_pair, r_idem, ast):
-    # ---- remove
-    def dec_remove(t, case):
-        is_last, is_first = case
-        if t in ("(&node == LAST)", "(LAST == &node)"):
-            return is_last
-        if t in ("(&node == this->first)", "(this->first == &node)"):
-            return is_first
-        if "BOOST_ASSERT" in t or "__builtin" in t:
-            return None
-        return None
-    RESET = {("node.prev_ptr", "null"), ("node.next_ptr", "null")}
-    exp_remove = {
-        (True, True): {("this->first", "null")},
-        (True, False): {("this->first->prev_ptr", "PREV"), ("PREV->next_ptr", "null")},
-        (False, True): {("this->first", "NEXT"), ("this->first->prev_ptr", "LAST")},
-        (False, False): {("PREV->next_ptr", "NEXT"), ("NEXT->prev_ptr", "PREV")},
-    }
-    names = {(True, True): "only element", (True, False): "last of several", (False, True): "first of several", (False, False): "interior element"}
-    fs = _fn(ast, r"static_list<.*>::remove$")
-    if not fs:
-        raise common.AnalysisBroken("static_list<T>::remove not instantiated")
-    for f in fs:
-        got = _list_cases(f, dec_remove, list(exp_remove))
-        for case, exp in exp_remove.items():
-            g = got.get(case)
-            if g is None:
-                run.broken.append("%s: paths for case %s not deterministic" % (short(f), names[case]))
-                continue
-            link = {a for a in g if a not in RESET}
-            ok = link == exp
-            run.instance(r_link, "%s removing the %s relinks %s" % (short(f), names[case], sorted(link)), (f["file"], f["line"]), ok=ok)
-            if not ok:
-                run.violation(r_link, "static_list::remove|%s" % names[case], "removing the %s performs %s, the list invariant needs %s" % (names[case], sorted(link), sorted(exp)), (f["file"], f["line"]))
-            okr = RESET <= g
-            run.instance(r_reset, "%s removing the %s resets the node's links (it can be registered again)" % (short(f), names[case]), (f["file"], f["line"]), ok=okr)
-            if not okr:
-                run.violation(r_reset, "static_list::remove|reset|%s" % names[case], "after removing the %s the node's prev/next links are not both reset to null" % names[case], (f["file"], f["line"]))
-    # ---- push_back
-    def dec_push(t, case):
-        if t in ("!this->first", "(this->first == null)"):
-            return case
-        if t in ("this->first", "(this->first != null)"):
-            return not case
-        return None
-    exp_push = {True: {("this->first", "&node"), ("node.prev_ptr", "&node")},
-                False: {("LAST->next_ptr", "&node"), ("node.prev_ptr", "LAST"), ("this->first->prev_ptr", "&node")}}
-    for f in _fn(ast, r"static_list<.*>::push_back$"):
-        got = _list_cases(f, dec_push, [True, False])
-        for case, exp in exp_push.items():
-            g = got.get(case)
-            nm = "empty list" if case else "non-empty list"
-            ok = g is not None and g == exp
-            run.instance(r_link, "%s appending to a%s %s links %s" % (short(f), "n" if case else "", nm, sorted(g or [])), (f["file"], f["line"]), ok=ok)
-            if not ok:
-                run.violation(r_link, "static_list::push_back|%s" % nm, "appending to a %s performs %s, the list invariant needs %s" % (nm, sorted(g or []), sorted(exp)), (f["file"], f["line"]))
+    # ---- remove / push_back: abstract interpretation over list-shape cases
+    from . import liststate
+    for what, pattern, cases in (("remove", r"static_list<.*>::remove$", liststate.remove_cases()), ("push_back", r"static_list<.*>::push_back$", liststate.push_cases())):
+        fs = _fn(ast, pattern)
+        if not fs:
+            raise common.AnalysisBroken("static_list<T>::%s not instantiated" % what)
+        for f in fs:
+            for case, ok, info in liststate.analyse(f, cases):
+                if ok is None:
+                    run.broken.append("%s, case '%s': not classifiable (%s)" % (short(f), case.name, info))
+                    continue
+                link = [d for d in info if not d.startswith("N.")]
+                reset = [d for d in info if d.startswith("N.")]
+                verb = "removing the" if what == "remove" else "appending to a list with"
+                run.instance(r_link, "%s: %s %s leaves the list linked as the invariant requires" % (short(f), verb, case.name), (f["file"], f["line"]), ok=not link)
+                if link:
+                    run.violation(r_link, "static_list::%s|%s" % (what, case.name), "%s %s: %s" % (verb, case.name, "; ".join(link)), (f["file"], f["line"]))
+                if what == "remove":
+                    run.instance(r_reset, "%s: removing the %s resets the node's own links (it can be registered again)" % (short(f), case.name), (f["file"], f["line"]), ok=not reset)
+                    if reset:
+                        run.violation(r_reset, "static_list::remove|reset|%s" % case.name, "after removing the %s: %s" % (case.name, "; ".join(reset)), (f["file"], f["line"]))
+                elif reset:
+                    run.violation(r_link, "static_list::push_back|node|%s" % case.name, "appending to a list with %s: %s" % (case.name, "; ".join(reset)), (f["file"], f["line"]))
     # ---- clear
     for f in _fn(ast, r"static_list<.*>::clear$"):
         loops = [n for n in astq.walk(f["body"]) if n.get("k") == "WhileStmt"]
@@ -1259,3 +1227,75 @@ def reserve_rules(run, rule, ast):
             run.instance(rule, "%s: '%s' is not skipped by any extra condition" % (short(f), what), (f["file"], c["l"]), ok=not bad)
             for t in bad:
                 run.violation(rule, "compiler::assign_lattice_slots|conditional-reservation", "the step '%s' is skipped depending on `%s`: a slot taken in one class is no longer reserved / propagated in every base and covariant class" % (what, t), (f["file"], c["l"]))
+
+
+# ---------------------------------------------------------------------------
+# (11) applicability: which definitions apply to a class at a virtual position
+
+def applicable_rules(run, rule, ast):
+    """build_dispatch_tables: a definition's bit is set for a class iff the class is in the covariant set of the
+    definition's parameter class at that position; the classes grouped are the covariant set of the method's
+    parameter class. calculate_covariant_classes: covariant(c) = {c} U covariant(d) for every direct derived d."""
+    for f in by_name(ast, "build_dispatch_tables"):
+        byid, parent = astq.index_nodes(f)
+        sets = [n for n in astq.walk(f["body"]) if (n.get("k") == "BinaryOperator" and n.get("op") == "=" or (n.get("k") == "CXXOperatorCallExpr" and n.get("oop") == "=")) and
+                any(x.get("k") == "DeclRefExpr" and x["ref"]["name"].endswith("mask") for x in astq.walk(n["c"][0] if n.get("k") == "BinaryOperator" else n["c"][1]))
+                and any(x.get("k") == "CXXOperatorCallExpr" and x.get("oop") == "[]" for x in astq.walk(n["c"][0] if n.get("k") == "BinaryOperator" else n["c"][1]))]
+        if len(sets) != 1:
+            run.broken.append("%s: expected one assignment of a mask bit, found %d" % (short(f), len(sets)))
+            continue
+        st = sets[0]
+        ifs = _enclosing(parent, st, ("IfStmt",))
+        loops = _enclosing(parent, st, ("CXXForRangeStmt",))
+        ok = False
+        why = "the mask bit is not guarded by a single membership test"
+        if ifs and len(loops) >= 3:
+            spec_loop = loops[0]
+            cls_loop = loops[1]
+            vp_loop = loops[2]
+            c = astq.strip(ifs[0]["cond"])
+            # <spec>.vp[dim]->covariant_classes.find(<class loop var>) != ....end()
+            if c.get("k") == "CXXOperatorCallExpr" and c.get("oop") in ("!=",):
+                l, r = astq.strip(c["c"][1]), astq.strip(c["c"][2])
+                find = l if (l.get("callee") or "").endswith("::find") else r
+                end = r if find is l else l
+                if (find.get("callee") or "").endswith("::find") and (end.get("callee") or "").endswith("::end"):
+                    owner_ok = all(any(x.get("k") == "MemberExpr" and x.get("member") == "covariant_classes" for x in astq.walk(z["c"][0])) and
+                                   any(x.get("k") == "DeclRefExpr" and x["ref"]["did"] == spec_loop["var"]["did"] for x in astq.walk(z["c"][0])) and
+                                   any(x.get("k") == "MemberExpr" and x.get("member") == "vp" for x in astq.walk(z["c"][0])) for z in (find, end))
+                    elem = astq.strip(find["c"][1])
+                    elem_ok = elem.get("k") == "DeclRefExpr" and elem["ref"]["did"] == cls_loop["var"]["did"]
+                    rng = astq.strip(cls_loop["range"])
+                    rng_ok = any(x.get("k") == "MemberExpr" and x.get("member") == "covariant_classes" for x in astq.walk(rng)) and any(
+                        x.get("k") == "DeclRefExpr" and x["ref"]["did"] == vp_loop["var"]["did"] for x in astq.walk(rng))
+                    ok = owner_ok and elem_ok and rng_ok and len(ifs) == 1
+                    why = "owner set %s, element %s, classes iterated %s" % ("ok" if owner_ok else "is not <definition>.vp[dim]->covariant_classes", "ok" if elem_ok else "is not the class being grouped",
+                                                                              "ok" if rng_ok else "are not the covariant classes of the method's parameter class")
+        run.instance(rule, "%s: definition applies to a class iff the class is in the covariant set of the definition's parameter class" % short(f), (f["file"], st["l"]), ok=ok)
+        if not ok:
+            run.violation(rule, "compiler::build_dispatch_tables|applicability", "applicability of a definition to a class is not decided by membership in the covariant set of its parameter class (%s)" % why, (f["file"], st["l"]))
+    for f in by_name(ast, "calculate_covariant_classes"):
+        cls_param = f["params"][0]["did"]
+        ins = [n for n in astq.walk(f["body"]) if n.get("k") == "CXXMemberCallExpr" and (n.get("callee") or "").endswith("::insert") and
+               any(x.get("k") == "MemberExpr" and x.get("member") == "covariant_classes" for x in astq.walk(n["c"][0]))]
+        self_ok = any(astq.strip(n["c"][1]).get("k") == "UnaryOperator" and astq.strip(n["c"][1]).get("op") == "&" and astq.strip(astq.strip(n["c"][1])["c"][0]).get("k") == "DeclRefExpr" and
+                      astq.strip(astq.strip(n["c"][1])["c"][0])["ref"]["did"] == cls_param for n in ins)
+        loops = [n for n in astq.walk(f["body"]) if n.get("k") == "CXXForRangeStmt" and any(x.get("k") == "MemberExpr" and x.get("member") == "direct_derived" for x in astq.walk(astq.strip(n["range"])))]
+        union_ok = False
+        rec_ok = False
+        if len(loops) == 1:
+            lv = loops[0]["var"]["did"]
+            for n in astq.walk(loops[0]["body"]):
+                if n.get("k") == "CallExpr" and (n.get("callee") or "").startswith("std::copy<"):
+                    src_ok = all(any(x.get("k") == "DeclRefExpr" and x["ref"]["did"] == lv for x in astq.walk(a)) and any(x.get("k") == "MemberExpr" and x.get("member") == "covariant_classes" for x in astq.walk(a)) for a in n["c"][1:3])
+                    dst_ok = any(x.get("k") == "DeclRefExpr" and x["ref"]["did"] == cls_param for x in astq.walk(n["c"][3])) and any(x.get("k") == "MemberExpr" and x.get("member") == "covariant_classes" for x in astq.walk(n["c"][3]))
+                    cd = [c for c in (_cdep_conds(f, n) or []) if c[0] not in ("loop", "trace")] if "cfg" in f else []
+                    # only the function's own 'already computed' early return may guard it
+                    cd = [c for c in cd if not (c[1] is not None and any(x.get("k") == "DeclRefExpr" and x["ref"]["did"] == cls_param for x in astq.walk(c[1])) and any(x.get("k") == "MemberExpr" and x.get("member") == "empty" for x in astq.walk(c[1])))]
+                    union_ok = src_ok and dst_ok and not cd
+                if n.get("k") == "CXXMemberCallExpr" and (n.get("callee") or "").endswith("::calculate_covariant_classes"):
+                    rec_ok = True
+        ok = self_ok and union_ok and rec_ok
+        run.instance(rule, "%s: covariant(c) = {c} U covariant(d) for every direct derived class d (computed first)" % short(f), (f["file"], f["line"]), ok=ok)
+        if not ok:
+            run.violation(rule, "compiler::calculate_covariant_classes|closure", "covariant set is not {class} united with the covariant sets of all direct derived classes (self %s, union %s, recursion %s)" % (self_ok, union_ok, rec_ok), (f["file"], f["line"]))
